@@ -183,23 +183,56 @@ class Ctx:
         procs = procs or self.procs
         tasks = list(tasks)
         if procs <= 1 or len(tasks) <= 1:
-            results = map(_Shard(fn), tasks)
-            pool = None
-        else:
-            mp = multiprocessing.get_context("fork")
-            pool = mp.Pool(min(procs, len(tasks)))
-            results = pool.imap_unordered(_Shard(fn), tasks)
+            for dump, fails, err in map(_Shard(fn), tasks):
+                self._take(dump, fails, err)
+            return
+        import concurrent.futures as cf
+
+        mp = multiprocessing.get_context("fork")
+        ex = cf.ProcessPoolExecutor(max_workers=min(procs, len(tasks)), mp_context=mp)
+        futs = [ex.submit(_Shard(fn), t) for t in tasks]
+        pids = set()
         try:
-            for dump, fails, err in results:
-                if err:
-                    raise HarnessError("shard failed:\n" + err)
-                self.ev.merge(dump)
-                for f in fails:
-                    self.failures.append(Failure(f["case"], f["detail"], f["key"]))
+            for fut in cf.as_completed(futs):
+                try:
+                    dump, fails, err = fut.result()
+                except cf.process.BrokenProcessPool:
+                    # a worker killed itself because code under test could not be unwound (see trun.cpu_guard): its note names
+                    # the case; the shards still queued are lost, which the evidence says
+                    lost = sum(1 for f in futs if not f.done() or f.exception() is not None)
+                    self.ev.notes["shards_lost_to_dead_worker"] = lost
+                    found = False
+                    for p in list(getattr(ex, "_processes", {}) or {}) + list(pids):
+                        try:
+                            with open(note_path(p)) as fh:
+                                note = json.load(fh)
+                            os.unlink(note_path(p))
+                        except Exception:
+                            continue
+                        f = Failure(note["case"], "worker %d had to be killed while running this case: %s" % (p, note["what"]),
+                                    "does-not-terminate")
+                        f.info["no_confirm"] = True
+                        self.failures.append(f)
+                        found = True
+                    if not found:
+                        raise HarnessError("a worker process died without leaving a case note")
+                    break
+                pids.update(getattr(ex, "_processes", {}) or {})
+                self._take(dump, fails, err)
         finally:
-            if pool is not None:
-                pool.terminate()
-                pool.join()
+            ex.shutdown(wait=False, cancel_futures=True)
+            for p in list(getattr(ex, "_processes", {}) or {}):
+                try:
+                    os.kill(p, 9)
+                except OSError:
+                    pass
+
+    def _take(self, dump, fails, err):
+        if err:
+            raise HarnessError("shard failed:\n" + err)
+        self.ev.merge(dump)
+        for f in fails:
+            self.failures.append(Failure(f["case"], f["detail"], f["key"]))
 
 
 class _Shard:
@@ -214,6 +247,30 @@ class _Shard:
             return None, None, traceback.format_exc()
         finally:
             cleanup_tmp()
+
+
+# -- "current case" notes: a worker that has to be killed (a render that cannot be unwound) leaves its case behind ----
+NOTE_DIR = os.environ.get("VERIF_NOTE_DIR") or ("/dev/shm" if os.path.isdir("/dev/shm") else tempfile.gettempdir())
+
+
+def note_path(pid=None):
+    return os.path.join(NOTE_DIR, "vf-current-%d.json" % (pid or os.getpid()))
+
+
+def note_case(case, what):
+    """remember the case about to be executed by code that might never return"""
+    try:
+        with open(note_path(), "w") as fh:
+            json.dump({"case": jsonable(case), "what": what}, fh)
+    except Exception:
+        pass
+
+
+def clear_note():
+    try:
+        os.unlink(note_path())
+    except OSError:
+        pass
 
 
 # -- temp dirs -----------------------------------------------------------
